@@ -80,20 +80,28 @@ const blockSize = 16
 
 // tier parameters
 type tierCfg struct {
-	perGroup   int  // extra seeds of distinct encoding length per (decoder, message type) for the dense families
-	maxDense   int  // longest seed that gets the dense families
-	truncAll   bool // truncations of every seed of the catalogue (else of the dense seeds)
-	pbAllDense bool // protobuf tree mutations of every dense protobuf seed (else representatives only)
-	pairMax    int  // pairs of tree mutations for representatives with at most this many single mutations (0: none)
+	// extra dense seeds per (decoder kind, message type), all of distinct encoding length:
+	// native kinds get the shortest and further ones evenly spaced up to (not including) the
+	// longest - on a tree whose address map decoders allocate what a damaged length announces,
+	// about 0.6 % of the damaged native inputs take seconds each, so native seeds are expensive;
+	// protobuf seeds are evenly spaced from the shortest to the longest
+	perGroupNative, perGroupPB int
+	maxDense                   int  // longest seed that gets the dense families
+	truncAll                   bool // truncations of every seed of the catalogue (else of the dense seeds)
+	pbAllDense                 bool // protobuf tree mutations of every dense protobuf seed (else representatives only)
+	pairMax                    int  // pairs of tree mutations for representatives with at most this many single mutations (0: none)
 }
 
 func cfgOf(tier string) tierCfg {
-	c := tierCfg{perGroup: 0, maxDense: 2048, truncAll: false, pbAllDense: false, pairMax: 0}
+	c := tierCfg{maxDense: 2048}
 	if tier == "thorough" {
-		c = tierCfg{perGroup: 8, maxDense: 5200, truncAll: true, pbAllDense: true, pairMax: 420}
+		c = tierCfg{perGroupNative: 2, perGroupPB: 8, maxDense: 5200, truncAll: true, pbAllDense: true, pairMax: 420}
 	}
-	if v, err := strconv.Atoi(os.Getenv("VERIF_DECODE_PERGROUP")); err == nil { // experiments only
-		c.perGroup = v
+	if v, err := strconv.Atoi(os.Getenv("VERIF_DECODE_PERGROUP_NATIVE")); err == nil {
+		c.perGroupNative = v
+	}
+	if v, err := strconv.Atoi(os.Getenv("VERIF_DECODE_PERGROUP_PB")); err == nil {
+		c.perGroupPB = v
 	}
 	return c
 }
@@ -193,14 +201,18 @@ func buildPlan(tier string, shard, nshards int) *plan {
 			}
 		}
 		sort.SliceStable(cand, func(a, b int) bool { return len(seeds[cand[a]].Bytes) < len(seeds[cand[b]].Bytes) })
-		k := cfg.perGroup
+		k, div := cfg.perGroupNative, 0
+		if strings.HasPrefix(g, "protobuf-envelope") {
+			k = cfg.perGroupPB
+			div = -1
+		}
 		if k > len(cand) {
 			k = len(cand)
 		}
 		for j := 0; j < k; j++ {
 			r := 0
-			if k > 1 {
-				r = j * (len(cand) - 1) / (k - 1)
+			if k+div > 0 {
+				r = j * (len(cand) - 1) / (k + div) // protobuf: up to the longest; native: below it
 			}
 			dense[cand[r]] = true
 		}
